@@ -59,6 +59,14 @@ def structures(tier):
     for hdr in (False, True):
         sts.append({'kind': 'sampler', 'thd': True, 'hdr': hdr, 'nd': 1, 'pre': True})
         sts.append({'kind': 'sampler', 'thd': False, 'hdr': hdr, 'nd': 1, 'pre': True})
+    # an unfinished earlier operation of the same kind (and a nested-kind record) before the window
+    for s in [[]] + [[a] for a in RF]:
+        sts.append({'kind': 'vmfault', 'nested': s, 'noise': False, 'ft': None, 'stale': 'RealFaultAddressInternal'})
+    for ks in ([], ['DYLD_uuid_map_a']):
+        sts.append({'kind': 'launch', 'nested': ks, 'noise': False, 'stale': 'DYLD_uuid_map_a'})
+    for hdr in (False, True):
+        sts.append({'kind': 'sampler', 'thd': False, 'hdr': hdr, 'nd': 1, 'stale': 'PERF_THD_Data'})
+        sts.append({'kind': 'sampler', 'thd': True, 'hdr': hdr, 'nd': 0, 'stale': 'PERF_STK_UHdr'})
     kinds = ['DYLD_uuid_map_a', 'DYLD_uuid_shared_cache_a']
     for n in range(0, 4 if tier == 'thorough' else 3):
         for ks in itertools.product(kinds, repeat=n):
@@ -87,8 +95,26 @@ def _parser(ctx):
     return p
 
 
-def _feed(ctx, evs, first, pre=False):
+def _stale(ctx, first, kind):
+    """an earlier START of the same operation on the same thread whose END was lost, followed by a record of the nested
+    kind: both precede the window and belong to no window of the dump"""
+    _, by_name = sweep.codes()
+    w = [ctx.int('stale_a%d' % i) for i in range(4)]
+    out = [sweep.make_event(1, w, TID, first.eventid | 1)]
+    if kind in ('DYLD_uuid_map_a', 'DYLD_uuid_shared_cache_a'):
+        out.append(sweep.make_event_data(2, bytes(range(32, 48)) + K.to_le(ctx.int('stale_addr'), 8) + bytes(8), TID, by_name[kind]))
+    else:
+        n = [ctx.int('stale_n%d' % i) for i in range(4)]
+        if kind.startswith('RealFaultAddress'):
+            ctx.assume((n[1] & 0xff) == 1)
+        out.append(sweep.make_event(2, n, TID, by_name[kind]))
+    return out
+
+
+def _feed(ctx, evs, first, pre=False, stale=None):
     """pre: the four parser tables start in an arbitrary state (HavocMap) instead of empty"""
+    if stale:
+        evs = _stale(ctx, first, stale) + list(evs)
     if pre:
         tabs = sweep.havoc_tables(ctx)
         p = sweep.parser_on(tabs)
@@ -155,7 +181,7 @@ def run_vmfault2(ctx, st):
         add(k, 0, w)
         n2.append(w)
     add('MACH_vmfault', 2, r2)
-    t, out, err = _feed(ctx, evs, start2, st.get('pre', False))
+    t, out, err = _feed(ctx, evs, start2, st.get('pre', False), st.get('stale'))
     L = 'C20/vmfault-history'
     if err == 'ood':
         ctx.reach('ood'); ctx.reach(); return
@@ -207,7 +233,7 @@ def run_vmfault(ctx, st):
     if st['noise']:
         evs.append(_noise(ts)); ts += 1
     evs.append(sweep.make_event(ts, r, TID, by_name['MACH_vmfault'] | 2))
-    t, out, err = _feed(ctx, evs, start, st.get('pre', False))
+    t, out, err = _feed(ctx, evs, start, st.get('pre', False), st.get('stale'))
     if err == 'ood':
         ctx.reach('ood'); ctx.reach(); return
     L = 'C20/vmfault'
@@ -254,7 +280,7 @@ def run_launch(ctx, st):
         evs.append(ev)
         nested.append((ev, addr))
     evs.append(sweep.make_event(ts + 1, [0, 0, 0, 0], TID, lid | 2))
-    t, out, err = _feed(ctx, evs, start, st.get('pre', False))
+    t, out, err = _feed(ctx, evs, start, st.get('pre', False), st.get('stale'))
     L = 'C20/launch'
     if err is not None or t is None:
         ctx.check(L + '/trace', False, repr(err)); ctx.reach(); return
@@ -294,7 +320,7 @@ def run_sampler(ctx, st):
         words += w
         evs.append(sweep.make_event(ts, w, TID, by_name['PERF_STK_UData'])); ts += 1
     evs.append(sweep.make_event(ts, [flags, 0, 0, 0], TID, pe | 2))
-    t, out, err = _feed(ctx, evs, start, st.get('pre', False))
+    t, out, err = _feed(ctx, evs, start, st.get('pre', False), st.get('stale'))
     L = 'C20/sampler'
     if err is not None or t is None:
         ctx.check(L + '/trace', False, repr(err)); ctx.reach(); return
